@@ -503,10 +503,36 @@ Fixpoint edges_out (env : senv) (ds : list decl) (ckss : list checks) (srcs : li
 Definition has_plain (ds : list decl) : bool :=
   existsb (fun d => match d_maps d with [] => true | _ => false end) ds.
 
+(* a value that a Go variable of static type [t] can hold (shallow part): the type assertion v.(t) *)
+Definition slot_ok (t : ty) (v : val) : bool :=
+  match dyn v with
+  | None => ty_eqb t TAny
+  | Some d => assignable d t
+  end.
+
+(* AddInput without mappings (graph.go updateToValidateMap, "common node check"): the successor gets
+   the predecessor's value itself; when the predecessor's type is an interface and the successor's is
+   not (assignableTypeMay) the edge carries the run-time type check of the successor's input
+   (defaultValueChecker / defaultStreamConverter: v.(T), chunk by chunk in Stream) *)
+Definition plain_out (T P : ty) (s : val) : res val :=
+  match check_assignable P T with
+  | May => if slot_ok T s then Ok s else Err ECheck
+  | _ => Ok s
+  end.
+
+Fixpoint plain_stream (T P : ty) (cs : list val) : res (list val) :=
+  match cs with
+  | [] => Ok []
+  | c :: cs' => do x <- plain_out T P c; do r <- plain_stream T P cs'; Ok (x :: r)
+  end.
+
 (* Invoke: every predecessor delivers one value *)
 Definition run_invoke (env : senv) (T : ty) (ds : list decl) (ckss : list checks) (srcs : list val) : res val :=
   if has_plain ds then
-    match srcs with s :: _ => Ok s | [] => Err ESrc end     (* an accepted plain edge is the only declaration *)
+    match ds, srcs with                     (* an accepted plain edge is the only declaration *)
+    | d :: _, s :: _ => plain_out T (d_ty d) s
+    | _, _ => Err ESrc
+    end
   else
     do ms <- edges_out env ds ckss srcs;
     do m <- merge_maps ms [];
@@ -536,7 +562,10 @@ Fixpoint run_stream_from (env : senv) (T : ty) (ds : list decl) (ckss : list che
 
 Definition run_stream (env : senv) (T : ty) (ds : list decl) (ckss : list checks) (srcs : list (list val)) : res (list val) :=
   if has_plain ds then
-    match srcs with s :: _ => Ok s | [] => Err ESrc end
+    match ds, srcs with
+    | d :: _, cs :: _ => plain_stream T (d_ty d) cs
+    | _, _ => Err ESrc
+    end
   else run_stream_from env T ds ckss srcs.
 
 (* ================================================================ static values *)
@@ -601,14 +630,8 @@ Definition run_stream_s (env : senv) (T : ty) (ds : list decl) (ss : statics) (c
 Definition conv (st : ty) (x : val) : val :=
   match dyn x with None => zero st | Some _ => x end.
 
-(* a value that a Go variable of static type [t] can hold (shallow part) ... *)
-Definition slot_ok (t : ty) (v : val) : bool :=
-  match dyn v with
-  | None => ty_eqb t TAny
-  | Some d => assignable d t
-  end.
-
-(* ... and whose components are such values again (deep part) *)
+(* a value that a Go variable of static type [t] can hold: [slot_ok] (shallow part, above) and
+   whose components are such values again (deep part) *)
 Fixpoint wfv (env : senv) (v : val) : bool :=
   match v with
   | VStruct n fs =>
